@@ -202,7 +202,9 @@ func monC10(rep Rep, v *View, cacheBefore []sim.CachedObj) (interesting bool) {
 		case "pods":
 			snap := v.ByName[a.Name]
 			before, _ := a.Before.(*corev1.Pod)
-			fromOdd := false
+			// identity "repair" of a non-canonically named pod renames it to S-<n> and (on a conflict retry) re-reads
+			// whatever pod carries that name: with such pods in the snapshot, pod updates are not judged
+			fromOdd := a.Verb == "update" && len(v.Odd) > 0
 			if sent, ok := a.Obj.(*corev1.Pod); ok && a.Verb == "update" {
 				for _, o := range v.Odd {
 					if o.UID == sent.UID {
